@@ -46,6 +46,7 @@ class Sched:
         self.manual = False
         self.trace = []
         self.queues = []
+        self.requested_maxsize = []      # the capacity the library itself asked for at each Queue(...)
         self.created = []
         self.fhash = '0'
         self.nwrites = 0
@@ -266,6 +267,7 @@ def instrument(S):
             self.not_empty, self.not_full, self.all_tasks_done = ICond(self.mutex), ICond(self.mutex), ICond(self.mutex)
             self._vz_idx = len(S.queues)
             S.queues.append(self)
+            S.requested_maxsize.append(maxsize)
 
         # code that looks at the queue's state directly (polling instead of join()) does so at a scheduling point
         def _peek(self, what):
